@@ -4,7 +4,7 @@
    obstacle as it was. *)
 From Coq Require Import List NArith Bool Lia ZifyN ZifyNat ZifyBool.
 From FS Require Import Sx Model.Path Model.SymMode Model.Copier Model.CopySpec Proofs.Lex
-  Proofs.CopierP Proofs.CopyOpsP Proofs.CopyDentP Proofs.CopyNodeP.
+  Proofs.CopierP Proofs.CopyOpsP Proofs.CopyDentP Proofs.CopyLinkP Proofs.CopyNodeP.
 Import ListNotations.
 Open Scope N_scope.
 Open Scope bool_scope.
@@ -20,15 +20,16 @@ Section Conf.
   Variable multi : N -> bool.
   Variable selected : list (list N) -> bool.
   Hypothesis Hsel : forall p, selected p = true.
-  Hypothesis Hmulti : forall i, multi i = false.
+  Variable sdof : N -> dent.
   Notation Inv := (Inv o).
+  Notation Lk := (Lk o ms multi sdof).
   Notation touch := (touch o).
   Notation ov := (ov o ms multi).
   Notation ovk := (ovk o ms multi).
   Notation res := (res o ms multi).
   Notation nc := (nc o).
   Notation tok := tok.
-  Notation node_ok := (node_ok o ms multi selected).
+  Notation node_ok := (node_ok o ms multi selected sdof).
   Notation kids_loop := (kids_loop o ms multi selected).
 
   (* ---- G ---- *)
@@ -36,7 +37,7 @@ Section Conf.
     match v with
     | None => True
     | Some e => (x_mk e = true -> In q cr) /\
-                (In q cr -> x_key e = KNew q /\ mkfacts o (x_d e))
+                (In q cr -> (x_key e = KNew q \/ exists s, x_key e = KSrc s) /\ mkfacts o (x_d e))
     end.
   Definition G (X : xview) (cr : list (list (list N))) : Prop := forall q, Gp cr q (X q).
 
@@ -65,8 +66,8 @@ Section Conf.
   Proof.
     intro H. unfold copied.
     assert (Hnew : Gp cr q (Some (new_entry o ms multi s q))).
-    { unfold new_entry, Gp, mkfacts. cbn [x_mk x_key x_d d_mtime d_uid d_gid]. rewrite Hmulti, andb_false_r.
-      split; [discriminate|]. intros _. split; auto. split; [apply info_time_ut|].
+    { unfold new_entry, Gp, mkfacts. cbn [x_mk x_key x_d d_mtime d_uid d_gid].
+      split; [discriminate|]. intros _. split; [destruct (is_reg (sdent s) && multi (sino s)); eauto|]. split; [apply info_time_ut|].
       intros u g Hc. rewrite (info_owner_ch _ _ _ Hc). auto. }
     destruct old as [e|]; auto.
     destruct (is_dir (sdent s) && is_dir (x_d e)); auto. simpl in H. destruct H as [H1 H2].
@@ -122,44 +123,51 @@ Section Conf.
   (* ---- the statement ---- *)
   Definition node_conf (n : snode) : Prop :=
     forall sc T ow st X cls p bef,
-      Inv (c_fs st) X -> tok X T (sdent n) -> o_replace o = false ->
+      Inv (c_fs st) X -> Lk (c_fs st) X (c_imap st) -> PC T (c_imap st) ->
+      tok X T (sdent n) -> o_replace o = false ->
       first_conflict X T n = Some (XConflict cls p bef) ->
       exists st' e X', copy_node o ms multi selected n sc T ow st = (st', Some e) /\ err_cls e = cls /\
-        Inv (c_fs st') X' /\ X' p = bef /\ bef <> None /\ (forall cr, G X cr -> G X' cr) /\
-        c_imap st' = c_imap st /\ c_stale st' = c_stale st.
+        Inv (c_fs st') X' /\ Lk (c_fs st') X' (c_imap st') /\ X' p = bef /\ bef <> None /\
+        (forall cr, G X cr -> G X' cr) /\ c_stale st' = c_stale st.
 
   Lemma bind_err s e (k : cstate -> R) : bind (s, Some e) k = (s, Some e).
   Proof. reflexivity. Qed.
 
   Lemma kids_conf l : Forall node_ok l -> Forall node_conf l -> forall sc T st Xc cls p bef,
-    NoDup (map sname l) -> Inv (c_fs st) Xc -> x_isdir (Xc T) = true -> o_replace o = false ->
+    NoDup (map sname l) -> Inv (c_fs st) Xc -> Lk (c_fs st) Xc (c_imap st) ->
+    (forall k, In k l -> PC (T ++ [sname k]) (c_imap st)) ->
+    x_isdir (Xc T) = true -> o_replace o = false ->
     kids_conflict Xc T l = Some (XConflict cls p bef) ->
     exists st' e X', kids_loop sc T l st = (st', Some e) /\ err_cls e = cls /\
-      Inv (c_fs st') X' /\ X' p = bef /\ bef <> None /\ (forall cr, G Xc cr -> G X' cr) /\
-      c_imap st' = c_imap st /\ c_stale st' = c_stale st.
+      Inv (c_fs st') X' /\ Lk (c_fs st') X' (c_imap st') /\ X' p = bef /\ bef <> None /\
+      (forall cr, G Xc cr -> G X' cr) /\ c_stale st' = c_stale st.
   Proof.
-    intros Hok Hcf. induction l as [|k r IH]; intros sc T st Xc cls p bef Hnd I HT Hr Hc; [discriminate|].
+    intros Hok Hcf. induction l as [|k r IH]; intros sc T st Xc cls p bef Hnd I L Hpc HT Hr Hc; [discriminate|].
     inversion Hok as [|? ? Hk Hok']; inversion Hcf as [|? ? Hck Hcf']; subst.
     simpl in Hnd. inversion Hnd as [|? ? Hni Hnd']; subst.
     rewrite kids_loop_cons. simpl in Hc.
     assert (Htok : tok Xc (T ++ [sname k]) (sdent k)) by (right; exists T, (sname k); auto).
+    assert (Hpck : PC (T ++ [sname k]) (c_imap st)) by (apply Hpc; left; auto).
     destruct (first_conflict Xc (T ++ [sname k]) k) as [c|] eqn:Ec.
     - inversion Hc; subst c.
-      destruct (Hck (sc ++ [sname k]) (T ++ [sname k]) true st Xc cls p bef I Htok Hr Ec)
+      destruct (Hck (sc ++ [sname k]) (T ++ [sname k]) true st Xc cls p bef I L Hpck Htok Hr Ec)
         as (st' & e & X' & E1 & E2 & E3 & E4 & E5 & E6 & E7 & E8).
       rewrite E1, bind_err. exists st', e, X'. spl; auto.
-    - destruct (Hk (sc ++ [sname k]) (T ++ [sname k]) true st Xc I Htok) as (st1 & E1 & I1 & N1 & M1 & S1).
+    - destruct (Hk (sc ++ [sname k]) (T ++ [sname k]) true st Xc I L Hpck Htok) as (st1 & E1 & I1 & L1 & M1 & N1 & S1).
       { intros _. auto. }
-      rewrite E1, bind_ret. cbn [negb] in I1.
+      rewrite E1, bind_ret. cbn [negb] in I1, L1.
       set (Xc' := res k (T ++ [sname k]) false Xc) in *.
       assert (Hoth : forall b r0, bytes_eqb (sname k) b = false -> Xc' (T ++ b :: r0) = Xc (T ++ b :: r0)).
       { intros b r0 Hb. apply res_kid_other; [apply below_ne|]. rewrite strip_snoc_below, Hb. auto. }
       destruct (IH Hok' Hcf' sc T st1 Xc' cls p bef) as (st' & e & X' & F1 & F2 & F3 & F4 & F5 & F6 & F7 & F8); auto.
+      { intros k2 Hin s l i Hrec. destruct (M1 _ _ _ Hrec) as [Hold|Hu].
+        - eapply Hpc; eauto. right; auto.
+        - eapply prefix_disjoint; eauto. intro E. apply Hni. rewrite E. apply in_map. auto. }
       { unfold Xc'. rewrite res_T_isdir. auto. }
       { rewrite <- Hc. apply kids_conflict_ext. intros b r0 Hb. apply Hoth.
         apply bytes_eqb_neq. intro E. apply Hni. rewrite E. auto. }
       exists st', e, X'. spl; auto; try congruence.
-      intros cr Hg. apply F6. apply G_res. auto.
+      intros cr Hg. apply F7. apply G_res. auto.
   Qed.
 
   Lemma kids_conflict_under V T l cls p bef : Forall (fun k => forall T cls p bef,
@@ -172,14 +180,15 @@ Section Conf.
     rewrite <- app_assoc. auto.
   Qed.
 
-  Lemma copy_node_conflict : forall n, wf_s n -> node_conf n.
+  Lemma copy_node_conflict : forall n, wf_s n -> cons_s multi sdof n -> node_conf n.
   Proof.
-    induction n as [nm ino sd kids IH] using snode_ind2. intro Hwf.
+    induction n as [nm ino sd kids IH] using snode_ind2. intros Hwf Hcs.
     apply wf_s_unfold in Hwf. destruct Hwf as (Hwd & Hk & Hnd & Hall).
+    apply cons_s_unfold in Hcs. destruct Hcs as (Hc1 & Hc2).
     assert (Hoks : Forall node_ok kids).
     { rewrite Forall_forall in *. intros k Hin. apply copy_node_ok; auto. }
     assert (Hcfs : Forall node_conf kids) by (rewrite Forall_forall in *; auto).
-    intros sc T ow st X cls p bef I Htok Hr Hc. cbn [sdent] in Htok.
+    intros sc T ow st X cls p bef I L0 Hpc Htok Hr Hc. cbn [sdent] in Htok.
     rewrite first_conflict_unfold in Hc.
     destruct (X T) as [e|] eqn:HXT; [|discriminate].
     pose proof (inv_lstat _ _ _ T I) as HL. rewrite HXT in HL.
@@ -194,35 +203,43 @@ Section Conf.
         unfold copy_dir_only. rewrite ELs, (dm_is_dir _ _ _ HL), Hde. cbn [negb].
         destruct (inv_x_some _ _ _ _ _ I HXT) as (i & Hi & Hm & Hkey).
         assert (Hdi : is_dir (inodes (c_fs st) i) = true) by (rewrite (dm_is_dir _ _ _ Hm); auto).
+        assert (Hns : forall s, x_key e <> KSrc s).
+        { intros s Hs. pose proof (lk_src_not_dir _ _ _ _ _ _ _ _ _ _ L0 HXT Hs). congruence. }
         assert (S2 : exists fs2 e2, (if ow then match upd_path T (set_perm (perm12 sd)) (c_fs st) with
                                                | Some fs' => (with_fs st fs', None, false)
                                                | None => (st, Some EOther, false) end
                                      else (st, None, false)) = (with_fs st fs2, None, false) /\
-                     Inv fs2 (xupd T (Some e2) X) /\ is_dir (x_d e2) = true /\ (forall cr, G X cr -> G (xupd T (Some e2) X) cr)).
+                     Inv fs2 (xupd T (Some e2) X) /\ Lk fs2 (xupd T (Some e2) X) (c_imap st) /\
+                     is_dir (x_d e2) = true /\ (forall cr, G X cr -> G (xupd T (Some e2) X) cr)).
         { destruct ow.
           - rewrite (upd_path_some _ _ _ _ Hi).
             set (e2 := {| x_d := set_perm (perm12 sd) (x_d e); x_known := x_known e; x_key := x_key e; x_mk := x_mk e |}).
-            exists (upd_inode i (set_perm (perm12 sd)) (c_fs st)), e2. split; auto. split; [|split].
+            exists (upd_inode i (set_perm (perm12 sd)) (c_fs st)), e2. split; auto. split; [|split; [|split]].
             + eapply inv_upd1; eauto.
               * eapply dir_unique; eauto.
               * apply ftype_set_perm.
               * apply dm_set_perm; auto.
+            + eapply (Lk_upd o ms multi sdof (c_fs st) _ _ _ T e e2 L0); auto.
             + cbn [e2 x_d]. rewrite <- (is_dir_ftype _ _ (eq_sym (ftype_set_perm (perm12 sd) (x_d e)))). auto.
             + intros cr Hg. apply G_xupd; auto. specialize (Hg T). rewrite HXT in Hg. exact Hg.
-          - exists (c_fs st), e. split; [destruct st; auto|]. split; [|split; auto].
-            + eapply Inv_ext; [|exact I]. intro q. destruct (path_dec q T) as [->|Hn]; [rewrite xupd_same|rewrite xupd_other]; auto.
-            + intros cr Hg. eapply G_ext; [|exact Hg]. intro q.
-              destruct (path_dec q T) as [->|Hn]; [rewrite xupd_same|rewrite xupd_other]; auto. }
-        destruct S2 as (fs2 & e2 & S2 & I2 & Hd2 & G2). rewrite S2.
+          - assert (EX : forall q, xupd T (Some e) X q = X q).
+            { intro q. destruct (path_dec q T) as [->|Hn]; [rewrite xupd_same|rewrite xupd_other]; auto. }
+            exists (c_fs st), e. split; [destruct st; auto|]. split; [|split; [|split; auto]].
+            + eapply Inv_ext; [exact EX|exact I].
+            + eapply Lk_ext; [exact EX|exact L0].
+            + intros cr Hg. eapply G_ext; [exact EX|exact Hg]. }
+        destruct S2 as (fs2 & e2 & S2 & I2 & L2 & Hd2 & G2). rewrite S2.
         set (st3 := if true && (false || ow) then notify T true (with_fs st fs2) else with_fs st fs2).
         assert (I3 : Inv (c_fs st3) (xupd T (Some e2) X)) by (unfold st3; destruct (true && (false || ow)); auto).
-        destruct (kids_conf kids Hoks Hcfs sc T st3 (xupd T (Some e2) X) cls p bef Hnd I3)
+        assert (L3 : Lk (c_fs st3) (xupd T (Some e2) X) (c_imap st3)) by (unfold st3; destruct (true && (false || ow)); auto).
+        assert (M3 : c_imap st3 = c_imap st) by (unfold st3; destruct (true && (false || ow)); auto).
+        destruct (kids_conf kids Hoks Hcfs sc T st3 (xupd T (Some e2) X) cls p bef Hnd I3 L3)
           as (st' & e' & X' & F1 & F2 & F3 & F4 & F5 & F6 & F7 & F8); auto.
+        { intros k Hin. rewrite M3. apply PC_kid. auto. }
         { rewrite xupd_same. auto. }
         { rewrite <- Hc. apply kids_conflict_ext. intros b r _. apply xupd_other, below_ne. }
         rewrite F1, bind_err. exists st', e', X'. spl; auto.
-        * rewrite F7. unfold st3. destruct (true && (false || ow)); auto.
-        * rewrite F8. unfold st3. destruct (true && (false || ow)); auto.
+        rewrite F8. unfold st3. destruct (true && (false || ow)); auto.
       + inversion Hc; subst.
         unfold copy_dir_only. rewrite ELs, (dm_is_dir _ _ _ HL), Hde. cbn [negb].
         exists st, EDirOverNondir, X. spl; auto. discriminate.
